@@ -48,7 +48,15 @@ func init() {
 			Rename: map[string]string{"IssuerFromContext()": "reqIssuer", "NewAccessTokenVerifier()": "Hand.resNewAccessTokenVerifier"}}),
 		// decrypt (opaque) / verify (JWT) / neither
 		reader("pkg/op/userinfo.go", "getTokenIDAndSubject", "(String × String × Bool)"),
-		reader("pkg/op/token_revocation.go", "getTokenIDAndSubjectForRevocation", "(String × String × Bool)"),
+		// (returns an error only when the KEYS could not be obtained, which this model - a storage that answers - does not have:
+		// the key-set recorder is the identity on the verifier and never holds an error)
+		func() FuncSpec {
+			f := reader("pkg/op/token_revocation.go", "getTokenIDAndSubjectForRevocation", "(String × String × Bool)")
+			f.Ret = RetValErr
+			f.Rename["new(revocationKeySet)"] = "(default : ResRevocationKeys)"
+			f.Rename["keys.verifier()"] = "(keys).verifier"
+			return f
+		}(),
 		reader("pkg/op/token_exchange.go", "getTokenIDAndClaims", "(String × String × ResATClaims × Bool)"),
 		// userinfo
 		style(FuncSpec{File: "pkg/op/userinfo.go", Name: "Userinfo", Lean: "Userinfo",
